@@ -164,12 +164,14 @@ ReadAt(u, pt, sig, o, inp) == IF sig \notin SigsT[u] THEN 0
                               ELSE IF pt[2] THEN StatVal(u, pt[1], inp)[sig] ELSE ObsSig(u, pt[1], sig, o, inp)
 BagAt(u, pt, o, inp) == IF pt[2] THEN StatVal(u, pt[1], inp) ELSE ObsBag(u, pt[1], o, inp)
 
+\* the clause a wrong scalar value is reported under (C01_value; C03_value / C05_value for memory records)
+VClause(p) == IF "vclause" \in DOMAIN Recs[p] THEN Recs[p].vclause ELSE "C01_value"
 CheckScalar(p, k, n, ev, pt, o, inp) ==
   LET u == UnitsOf(p)[k]
       lab == Desc(u, pt[1]).sig
       sig == IF ev.free THEN lab ELSE ev.t
       obs == ReadAt(u, pt, sig, o, inp)
-  IN /\ (obs = ev.v \/ Fail(p, "C01_value", [unit |-> k, name |-> n, val |-> v_val, sig |-> sig, observed |-> obs, expected |-> ev.v]))
+  IN /\ (obs = ev.v \/ Fail(p, VClause(p), [unit |-> k, name |-> n, val |-> v_val, sig |-> sig, observed |-> obs, expected |-> ev.v]))
      /\ (ev.free \/ lab = ev.t \/ Fail(p, "C01_type", [unit |-> k, name |-> n, label |-> lab, expected |-> ev.t]))
      /\ (~ev.free \/ (lab \notin Reserved /\ lab # "") \/ Fail(p, "C13_reserved", [unit |-> k, name |-> n, label |-> lab]))
 
@@ -207,7 +209,9 @@ CheckTwin(p, n, w1, o1, inp1, o2, inp2) ==
   LET u1 == UnitsOf(p)[1]  u2 == UnitsOf(p)[2]
       p1 == ObsPoint(u1, n)  p2 == ObsPoint(u2, n)
       ev == w1.named[n]
-  IN IF p1[1] = 0 \/ p2[1] = 0 THEN TRUE      \* exposure is C20's business (DESIGN 6.7)
+  IN IF p1[1] = 0 /\ p2[1] = 0 THEN TRUE      \* exposed in neither build: C20's business (DESIGN 6.7)
+     ELSE IF p1[1] = 0 \/ p2[1] = 0
+     THEN Fail(p, "R2_exposed", [name |-> n, first |-> p1[1] # 0, second |-> p2[1] # 0])   \* an output only one build has
      ELSE IF ev.kind = "bun"
      THEN LET b1 == BagAt(u1, p1, o1, inp1)  b2 == BagAt(u2, p2, o2, inp2)
               S == SigsT[u1] \cup SigsT[u2]
@@ -303,7 +307,11 @@ Resync(p, am, o, inp) ==
               pt == IF n = "" THEN <<0, FALSE>> ELSE ObsPoint(U(p), n)
           IN IF pt[1] = 0 THEN am[i]
              ELSE LET x == ReadAt(U(p), pt, Desc(U(p), pt[1]).sig, o, inp) IN [v |-> x, on |-> (x # 0), amb |-> FALSE]]
-CanResync(p, am) == \A i \in DOMAIN am : ~am[i].amb \/ (DirectReader(p, i) # "" /\ ObsPoint(U(p), DirectReader(p, i))[1] # 0)
+\* a raced latch whose value expression currently evaluates to 0 cannot be re-read (on and off both read 0): that path ends
+CanResync(p, am) ==
+  LET info == World(p, 1, v_val, MemOf(am)).info IN
+  \A i \in DOMAIN am : ~am[i].amb \/ (/\ DirectReader(p, i) # "" /\ ObsPoint(U(p), DirectReader(p, i))[1] # 0
+                                        /\ (i \notin DOMAIN info \/ info[i].mode \in {"plain", "when"} \/ info[i].v # 0))
 
 \* all valuations: one initial state per (record, valuation)
 RECURSIVE Prod(_, _)
